@@ -3464,7 +3464,10 @@ class sptensor:
                 nansubs = self.allsubs()[nansubsidx]
                 newsubs = np.vstack((newsubs, nansubs))
                 newvals = np.vstack((newvals, np.nan * np.ones((nansubs.shape[0], 1))))
-            return ttb.sptensor(newsubs, newvals, self.shape)
+            if self.nnz == 0:
+                return self.copy()
+            # A quotient can be exactly zero (infinite divisor, underflow)
+            return _without_zero_values(newsubs, newvals, self.shape)
 
         # Tensor divided by a tensor
         if (
@@ -3532,7 +3535,7 @@ class sptensor:
             with np.errstate(divide="ignore", invalid="ignore"):
                 # A single subscript is returned as a scalar
                 cvals = self.vals / np.atleast_1d(other[csubs])[:, None]
-            return ttb.sptensor(csubs, cvals, self.shape)
+            return _without_zero_values(csubs, cvals, self.shape)
         if isinstance(other, ttb.ktensor):
             if self.nnz == 0:
                 # Nothing stored: every product / quotient is an implicit zero
